@@ -7,13 +7,19 @@
        the sequential meaning of the chain ([eval_chain], Model/ChainSpec.v) — which never builds a graph.
        Props/C01.v (chain_lowering_correct) proves (1) = (2) for well-formed chains; evaluating both ties the
        specification itself, not only the lowered graph, to the implementation. *)
-From Eino Require Import Base.Util Model.Graph Model.Chain Model.ChainSpec Model.ChainCompile Model.GraphCmp.
+From Eino Require Import Base.Util Model.Graph Model.Chain Model.ChainSpec Model.ChainCompile Model.PregelOpts Model.GraphCmp.
 
 (* cc_entry: the public entry point the root was called through: 0 = Invoke, 1 = Stream (output chunks
    concatenated), 2 = Transform (input cut into one chunk per top-level key, output concatenated).
    The superstep rule does not depend on the paradigm, so the observation of every entry point is compared
    with the same model run. *)
-Record ccase := { cc_case : gcase; cc_entry : N }.
+(* cc_rtmax: the call option WithRuntimeMaxSteps n given to the root (0 = none): the model applies it to the
+   forest ([with_rtmax], Model/PregelOpts.v: the root's limit is replaced, nested graphs keep theirs). *)
+Record ccase := { cc_case : gcase; cc_entry : N; cc_rtmax : nat }.
+
+Definition eff (c : ccase) : gcase :=
+  {| gc_forest := with_rtmax (cc_rtmax c) (gc_forest (cc_case c)); gc_input := gc_input (cc_case c);
+     gc_fails := gc_fails (cc_case c); gc_obs := gc_obs (cc_case c) |}.
 
 (* sub-graph nodes of a chain run the nested engine, exactly as [run] does for a lowered root *)
 Definition spec_sub (fails : list fail_entry) (F : forest) : nat -> path -> value -> unit -> outcome value * unit :=
@@ -54,8 +60,8 @@ Definition compile_agrees (c : gcase) : bool :=
   end.
 
 Definition run_bad (c : ccase) : bool :=
-  if (negb (N.eqb (cc_entry c) 0) && stream_incomparable (cc_case c))%bool then false
-  else gcase_bad (cc_case c) || negb (chain_spec_ok (cc_case c)).
+  if (negb (N.eqb (cc_entry c) 0) && stream_incomparable (eff c))%bool then false
+  else gcase_bad (eff c) || negb (chain_spec_ok (eff c)).
 
 Definition bad (c : ccase) : bool :=
   negb (compile_agrees (cc_case c))
